@@ -20,7 +20,8 @@ import (
 type OneCase struct {
 	G      gm.G       `json:"g"`
 	Family string     `json:"family"`
-	Aff    [6]float64 `json:"aff"` // float affine map applied for the general-position family (identity otherwise)
+	Shape  string     `json:"shape,omitempty"` // complex (triangulated grid) | comb (teeth / side-by-side holes)
+	Aff    [6]float64 `json:"aff"`             // float affine map applied for the general-position family (identity otherwise)
 }
 
 // genOne draws one valid geometry of any type on a triangulated grid (members of
@@ -31,12 +32,21 @@ func genOne(t *rapid.T, cx *h.Ctx, allowFloat bool) OneCase {
 	if cx.Thorough {
 		kmax = 5
 	}
-	k := rapid.IntRange(2, kmax).Draw(t, "k")
-	cpx := gen.DrawComplex(t, k, [2]int{0, 0})
-	typ := rapid.SampledFrom(gm.Types).Draw(t, "type")
-	g := cpx.Geom(t, typ, 0, true, nil)
-	m := gen.DrawIntMap(t, -3, 2*kmax+3)
-	c := OneCase{G: m.Apply(g), Family: "lattice", Aff: [6]float64{1, 0, 0, 0, 1, 0}}
+	var g gm.G
+	var m gen.IntMap
+	shape := "complex"
+	if rapid.IntRange(0, 9).Draw(t, "combfamily") == 4 {
+		g = genComb(t)
+		m = gen.DrawIntMap(t, -1, 44)
+		shape = "comb"
+	} else {
+		k := rapid.IntRange(2, kmax).Draw(t, "k")
+		cpx := gen.DrawComplex(t, k, [2]int{0, 0})
+		typ := rapid.SampledFrom(gm.Types).Draw(t, "type")
+		g = cpx.Geom(t, typ, 0, true, nil)
+		m = gen.DrawIntMap(t, -3, 2*kmax+3)
+	}
+	c := OneCase{G: m.Apply(g), Family: "lattice", Shape: shape, Aff: [6]float64{1, 0, 0, 0, 1, 0}}
 	if allowFloat && rapid.IntRange(0, 3).Draw(t, "floatfamily") == 0 {
 		c.Family = "float"
 		// well-conditioned affine map with dyadic coefficients: the image of the
@@ -52,6 +62,60 @@ func genOne(t *rapid.T, cx *h.Ctx, allowFloat bool) OneCase {
 		c.G = applyAff(g, c.Aff)
 	}
 	return c
+}
+
+// genComb: polygons whose horizontal sections consist of several solid stretches separated by gaps that may
+// be wider than every solid stretch - a comb (teeth of width 1..2 on a base bar, gaps 1..6 wide, teeth of
+// different heights) or a slab with wide holes side by side separated by thin walls.  A scan line through
+// such a shape sees solid / gap / solid / gap ...; choosing "the widest interval" among the wrong set of
+// intervals lands in a gap or a hole.  Returned as Polygon, one-member MultiPolygon, MultiPolygon with a
+// second far member, or a collection with a point.
+func genComb(t *rapid.T) gm.G {
+	n := rapid.IntRange(2, 5).Draw(t, "teeth")
+	var xs, ws, hs []int
+	x := 0
+	for i := 0; i < n; i++ {
+		w := rapid.IntRange(1, 2).Draw(t, "toothw")
+		xs, ws = append(xs, x), append(ws, w)
+		hs = append(hs, rapid.IntRange(5, 8).Draw(t, "toothh"))
+		x += w
+		if i < n-1 {
+			x += rapid.IntRange(1, 6).Draw(t, "gap")
+		}
+	}
+	W := x
+	var poly gm.G
+	if rapid.Bool().Draw(t, "holes") {
+		// slab [0,W] x [0,8] with a hole in every gap, walls = the teeth
+		H := 8
+		poly = gm.G{T: gm.Polygon, Rings: [][]gm.F{gm.Fs(0, 0, float64(W), 0, float64(W), float64(H), 0, float64(H), 0, 0)}}
+		for i := 0; i+1 < n; i++ {
+			x0, x1 := float64(xs[i]+ws[i]), float64(xs[i+1])
+			lo, hi := float64(rapid.IntRange(1, 3).Draw(t, "holelo")), float64(rapid.IntRange(5, 7).Draw(t, "holehi"))
+			poly.Rings = append(poly.Rings, gm.Fs(x0, lo, x0, hi, x1, hi, x1, lo, x0, lo))
+		}
+	} else {
+		ring := []float64{0, 0, float64(W), 0}
+		for i := n - 1; i >= 0; i-- {
+			r, l, hgt := float64(xs[i]+ws[i]), float64(xs[i]), float64(hs[i])
+			ring = append(ring, r, 1, r, hgt, l, hgt, l, 1)
+		}
+		// the first and last "1"-level corners coincide with the outline: drop the duplicates (W,1)/(0,1) handling
+		// (W,0)->(W,1) is collinear with (W,1)->(W,h): harmless; close the ring
+		ring = append(ring, 0, 0)
+		poly = gm.G{T: gm.Polygon, Rings: [][]gm.F{gm.Fs(ring...)}}
+	}
+	switch rapid.IntRange(0, 3).Draw(t, "combwrap") {
+	case 0:
+		return poly
+	case 1:
+		return gm.G{T: gm.MultiPolygon, Mem: []gm.G{poly}}
+	case 2:
+		far := gm.G{T: gm.Polygon, Rings: [][]gm.F{gm.Fs(float64(W+2), 0, float64(W+4), 0, float64(W+4), 1, float64(W+2), 0)}}
+		return gm.G{T: gm.MultiPolygon, Mem: []gm.G{far, poly}}
+	default:
+		return gm.G{T: gm.GeometryCollection, Mem: []gm.G{{T: gm.Point, Co: gm.Fs(float64(W+3), 3)}, poly}}
+	}
 }
 
 func applyAff(g gm.G, a [6]float64) gm.G {
@@ -114,6 +178,9 @@ func c14Check(c C14Case, cx *h.Ctx) *h.Failure {
 	g := model.ToGeom()
 	cx.Class("type=" + model.T)
 	cx.Class("family=" + c.Family)
+	if c.Shape != "" {
+		cx.Class("shape=" + c.Shape)
+	}
 	mag := magnitudeOf(model)
 	tauL := 1e-9 * mag
 	tauA := 1e-9 * mag * mag
@@ -161,6 +228,22 @@ func c14Check(c C14Case, cx *h.Ctx) *h.Failure {
 	}
 	if got := g.Area(geom.WithTransform(f)); math.Abs(got-wantArea*det) > tauA*(1+det)*20 {
 		return h.Failf("measure/area-with-transform-det", "Area(WithTransform(f)) = %.15g, exact area x |det f| = %.15g%s", got, wantArea*det, desc())
+	}
+	// both options together, in both argument orders: the signed area of the transformed geometry
+	sdet := T[0]*T[4] - T[1]*T[3]
+	for _, o := range []struct {
+		name string
+		x    geom.Geometry
+		sign float64
+	}{{"ForceCCW()", ccw, 1}, {"ForceCW()", cw, -1}} {
+		want := o.sign * wantArea * sdet
+		viaT := o.x.TransformXY(f).Area(geom.SignedArea)
+		for oi, got := range []float64{o.x.Area(geom.SignedArea, geom.WithTransform(f)), o.x.Area(geom.WithTransform(f), geom.SignedArea)} {
+			order := [2]string{"SignedArea, WithTransform(f)", "WithTransform(f), SignedArea"}[oi]
+			if math.Abs(got-want) > tauA*(1+det)*20 || math.Abs(got-viaT) > tauA*(1+det)*20 {
+				return h.Failf("measure/area-options-combined", "%s.Area(%s) = %.15g, want signed area x det f = %.15g (TransformXY(f).Area(SignedArea) = %.15g)%s", o.name, order, got, want, viaT, desc())
+			}
+		}
 	}
 
 	// --- Length ---
